@@ -387,12 +387,12 @@ class Check(object):
         # discharged count: obligations of known findings are expected-refuted and not counted as obligations to prove
         kf_rows = sum(1 for _, _, o, r in rows if o.name in kf_hit)
         kf_unproved = sum(1 for _, _, o, r in rows if o.name in kf_hit and r["verdict"] != "proved")
-        bounded = self.bounded_extras() if self.tier == "thorough" else []
+        bounded = self.bounded_extras()
         for b in bounded:
             if b.get("violation"):
                 exit_code = 1 if exit_code in (0, 2) else exit_code
                 violations += 1
-                self.say("VIOLATION property=%s replay=%s %s" % (pid, b.get("replay", "-"), b.get("name")))
+                self.say("VIOLATION property=%s replay=%s bounded-check=%s" % (pid, b.get("replay", "-"), b.get("name")))
         samples = []
         for gname, ur, o, r in rows[:: max(1, len(rows) // 8)][:8]:
             samples.append({"obligation": o.name, "kind": o.kind, "clause": o.clause[:160], "verdict": r["verdict"],
